@@ -5,7 +5,7 @@
     {"op":"history","machine":"borda","base":b,"calls":[[[ballot,"w"],...],...]}      ballot item: id | [ids]
     {"op":"history","machine":"rankval","cfg":{...},"calls":[ballot,...]}
     {"op":"history","machine":"scoreval","cfg":{...},"calls":[[[c,"score"],...],...]}
-    {"op":"history","machine":"rng","calls":[{"seed":s,"req":r} | {"other":k},...]}
+    {"op":"history","machine":"rng","calls":[{"seed":s,"blocks":[[req,...],...]} | {"other":k},...]}
     {"op":"history","machine":"none"}
 -/
 import VotelibDriver.Json
@@ -138,16 +138,18 @@ def handle (op : String) (j : Json) : Option (Except String Json) :=
       let tr := trace (scoreValStep cfg) cfg.explicit calls
       pure (answer (tr.map (fun r => storeJson r.1)) (tr.map (fun r => unitJson r.2)))
     | "rng" => do
-      -- the generator whose state is "the seed it was last seeded with, if nothing was drawn or disturbed since";
-      -- a draw reports (seed, request) when it happens right after a reseed and 0 otherwise
-      let M : RngModel (Option Nat) Nat (List Nat) :=
-        { reseed := fun s => some s,
-          draw := fun g r => (match g with | some s => [s, r] | none => [], none) }
+      -- a generator whose state is "seeded with s, k draws ago" (or unknown); a draw reports (s, k, request) when the
+      -- state is known and nothing otherwise: the outputs show which draws are functions of (seed, position, request)
+      let M : RngModel (Option (Nat × Nat)) Nat (List Nat) :=
+        { reseed := fun s => some (s, 0),
+          draw := fun g r => match g with
+            | some (s, k) => ([s, k, r], some (s, k + 1))
+            | none => ([], none) }
       let cs ← j.getObjValAs? (Array Json) "calls"
       let calls ← cs.toList.mapM (fun c => match c.getObjValAs? Nat "seed" with
         | .ok s => do
-          let r ← c.getObjValAs? Nat "req"
-          pure (RngCall.seeded (G := Option Nat) s [[r]])
+          let bl ← c.getObjValAs? (Array (Array Nat)) "blocks"
+          pure (RngCall.seeded (G := Option (Nat × Nat)) s (bl.toList.map (·.toList)))
         | .error _ => pure (RngCall.other (fun _ => none)))
       let tr := trace (seededStep M) none calls
       pure (answer [] (tr.map (fun r => toJson r.2)))
